@@ -365,7 +365,7 @@ class C13(Plan):
 
 class C15(BattlePlan):
     pid = 'C15'
-    tie = {**BT, 2: None, 4: None}
+    tie = {**BT, 2: None, 4: None, 13: None}
     mon = None
     mon_extra = True
     codes = {30, 31, 32, 33, 34, 35}
